@@ -335,6 +335,22 @@ fn run(case: &HashMap<String, String>) -> String {
                 Err(_) => "{\"outcome\":\"err\",\"fails\":[]}".to_string(),
             }
         }
+        "packet_order" => {
+            // the A records of the additional section, in the order of the wire (an OPT record among them is lifted out)
+            let want: Vec<u32> = case["addrs"].split(',').filter(|s| !s.is_empty()).map(|s| s.parse().unwrap()).collect();
+            match Packet::parse(&bytes) {
+                Ok(p) => {
+                    let got: Vec<u32> = p.additional_records.iter().filter_map(|r| match &r.rdata {
+                        crate::rdata::RData::A(a) => Some(a.address),
+                        _ => None,
+                    }).collect();
+                    let mut fails: Vec<&str> = Vec::new();
+                    if got != want || p.additional_records.len() != want.len() || p.opt().is_none() { fails.push("order"); }
+                    format!("{{\"outcome\":\"ok\",\"fails\":[{}]}}", fails.iter().map(|s| format!("\"{}\"", s)).collect::<Vec<_>>().join(","))
+                }
+                Err(_) => "{\"outcome\":\"err\",\"fails\":[\"rejected\"]}".to_string(),
+            }
+        }
         "rr_parse" => {
             let mut pos: usize = case["pos"].parse().unwrap();
             match ResourceRecord::parse(&bytes, &mut pos) {
